@@ -381,7 +381,7 @@ fn dep_configs(thorough: bool) -> Vec<DepConfig> {
     let masks: Vec<u8> = if thorough { (1..8).collect() } else { vec![1, 2, 4, 3, 6, 7] };
     // file-name policies: how the three file names are spelled in the source and on disk.
     // (written form, on-disk relative path) as functions of the plain stem and extension
-    const POLICIES: [&str; 7] = ["plain", "star-led", "subdirectory", "quoted-with-space", "dialect-name-led", "no-extension", "dot-led"];
+    const POLICIES: [&str; 8] = ["plain", "star-led", "subdirectory", "quoted-with-space", "dialect-name-led", "no-extension", "dot-led", "absolute-path-outside-the-search-directories"];
     fn spell(policy: usize, stem: &str, ext: &str) -> (String, String) {
         match policy {
             0 => (format!("{}.{}", stem, ext), format!("{}.{}", stem, ext)),
@@ -390,6 +390,9 @@ fn dep_configs(thorough: bool) -> Vec<DepConfig> {
             3 => (format!("\"{} file.{}\"", stem, ext), format!("{} file.{}", stem, ext)),
             4 => (format!("*standard-cl-21*{}.{}", stem, ext), format!("*standard-cl-21*{}.{}", stem, ext)),
             5 => (format!("{}{}", stem, ext), format!("{}{}", stem, ext)),
+            // written as an absolute path (the run-time root is substituted for @ROOT@); the file lives in ONE
+            // directory that is not on the search path
+            7 => (format!("\"@ROOT@/outside/{}.{}\"", stem, ext), format!("outside/{}.{}", stem, ext)),
             _ => (format!(".{}.{}", stem, ext), format!(".{}.{}", stem, ext)),
         }
     }
@@ -428,15 +431,48 @@ fn dep_configs(thorough: bool) -> Vec<DepConfig> {
                                         _ => format!("(\n (defun fa (Y) (+ Y {}))\n)", 10 + d),
                                     };
                                     if shape != 0 && shape != 3 {
-                                        files.push((format!("d{}/{}", d, a_d), body.into_bytes()));
+                                        if policy == 7 {
+                                            if !files.iter().any(|(p, _)| *p == a_d) {
+                                                files.push((a_d.clone(), body.into_bytes()));
+                                            }
+                                        } else {
+                                            files.push((format!("d{}/{}", d, a_d), body.into_bytes()));
+                                        }
                                     }
                                 }
                                 if mb & (1 << d) != 0 {
+                                    let place = |rel: &str, files: &Vec<(String, Vec<u8>)>| -> Option<String> {
+                                        if policy == 7 {
+                                            if files.iter().any(|(p, _)| p == rel) {
+                                                None
+                                            } else {
+                                                Some(rel.to_string())
+                                            }
+                                        } else {
+                                            Some(format!("d{}/{}", d, rel))
+                                        }
+                                    };
                                     match shape {
-                                        2 => files.push((format!("d{}/{}", d, b_d), format!("(\n (defun fb (Y) (* Y {}))\n)", 20 + d).into_bytes())),
-                                        3 => files.push((format!("d{}/{}", d, bin_d), format!("bin{}", d).into_bytes())),
-                                        4 => files.push((format!("d{}/{}", d, hex_d), format!("ff0{}", d).into_bytes())),
-                                        5 => files.push((format!("d{}/{}", d, sx_d), format!("(1 2 {})", d).into_bytes())),
+                                        2 => {
+                                            if let Some(pth) = place(&b_d, &files) {
+                                                files.push((pth, format!("(\n (defun fb (Y) (* Y {}))\n)", 20 + d).into_bytes()))
+                                            }
+                                        }
+                                        3 => {
+                                            if let Some(pth) = place(&bin_d, &files) {
+                                                files.push((pth, format!("bin{}", d).into_bytes()))
+                                            }
+                                        }
+                                        4 => {
+                                            if let Some(pth) = place(&hex_d, &files) {
+                                                files.push((pth, format!("ff0{}", d).into_bytes()))
+                                            }
+                                        }
+                                        5 => {
+                                            if let Some(pth) = place(&sx_d, &files) {
+                                                files.push((pth, format!("(1 2 {})", d).into_bytes()))
+                                            }
+                                        }
                                         _ => {}
                                     }
                                 }
@@ -468,8 +504,10 @@ fn compile_outcome(text: &str, search: &[String]) -> String {
     }
 }
 
-fn check_c18(st: &mut Stats, cfg: &DepConfig, root: &str) {
+fn check_c18(st: &mut Stats, cfg0: &DepConfig, root: &str) {
     st.eval();
+    // absolute-path spellings carry a placeholder for the run-time root
+    let cfg = &DepConfig { host: cfg0.host.replace("@ROOT@", root), files: cfg0.files.iter().map(|(p, c)| (p.clone(), String::from_utf8_lossy(c).replace("@ROOT@", root).into_bytes())).collect(), order: cfg0.order.clone(), tag: cfg0.tag.clone() };
     let _ = std::fs::remove_dir_all(root);
     for d in 0..3 {
         std::fs::create_dir_all(format!("{}/d{}", root, d)).expect("mkdir");
@@ -530,6 +568,10 @@ fn check_c18(st: &mut Stats, cfg: &DepConfig, root: &str) {
     for l in &listing {
         // each listed name must be the first match in search-path order
         let name = search.iter().find_map(|d| l.strip_prefix(&format!("{}/", d)).map(|x| x.to_string())).unwrap_or_else(|| std::path::Path::new(l).file_name().map(|s| s.to_string_lossy().to_string()).unwrap_or_default());
+        if !search.iter().any(|d| l.starts_with(&format!("{}/", d))) && l.starts_with(&format!("{}/outside/", root)) && std::path::Path::new(l).exists() {
+            // a file named by its absolute path outside the search directories: it is the file itself
+            continue;
+        }
         let first = search.iter().map(|d| format!("{}/{}", d, name)).find(|p| std::path::Path::new(p).exists());
         match first {
             Some(f) if std::path::Path::new(&f) == std::path::Path::new(l) => {}
@@ -547,7 +589,7 @@ fn check_c18(st: &mut Stats, cfg: &DepConfig, root: &str) {
 
 pub fn c18(thorough: bool, replay: Option<String>) -> i32 {
     let mut rep = Report::new("C18", if thorough { "thorough" } else { "quick" }, "exploration");
-    rep.rule = "every include-graph configuration of the stated family: 6 graph shapes (no include; plain include; include of an include; embed-file bin directly; embed-file hex inside an included file; embed-file sexp next to an include) x 7 file-name spellings (plain, *star-led*, in a subdirectory, quoted with a space, led by a dialect name, without extension, dot-led; the non-plain spellings over a reduced presence/order set) x every presence pattern of each file name in 3 search directories (different contents per directory) x search-path permutations x host dialects. \
+    rep.rule = "every include-graph configuration of the stated family: 6 graph shapes (no include; plain include; include of an include; embed-file bin directly; embed-file hex inside an included file; embed-file sexp next to an include) x 8 file-name spellings (plain, *star-led*, in a subdirectory, quoted with a space, led by a dialect name, without extension, dot-led, absolute path outside the search directories; the non-plain spellings over a reduced presence/order set) x every presence pattern of each file name in 3 search directories (different contents per directory) x search-path permutations x host dialects. \
         The files a compilation reads are determined without hooks: each file on disk is perturbed in turn and the program recompiled through compile_clvm_text; if the output (or error status) changes, the file was read. Every file so detected must be in gather_dependencies' listing, and every listed path must be the first match for its name in search-path order. non-trivial = distinct configurations with at least one file read and a correct listing"
         .to_string();
     rep.assumptions = vec!["a file whose perturbation cannot change the output (it is shadowed, or not reachable) is correctly treated as not read".to_string()];
